@@ -34,7 +34,7 @@ RULE += ' ' + 'Unknown files also get hidden (dot-prefixed, .nfs), backup (~) na
 RULE += ' ' + 'Directory spellings include a symbolic link to the real directory.'
 RULE += ' ' + "Directory spellings include '~/name' and '$VAR/name'; unknown files include copies of a live value file under its own name in another directory."
 ASSUMPTIONS = ['damage is applied while no operation is in flight', 'truncation of text happens on a code-point boundary and extension appends ASCII, except in the low-rate probe of known finding F14']
-PROBES = ('damage_items', 'fanout_runs', 'rows_removed_by_fix', 'f14_probe', 'dir_spelled_dot', 'dir_spelled_double', 'dir_spelled_trailing', 'dir_spelled_dotdot', 'dir_spelled_relative', 'dir_spelled_symlink', 'dir_spelled_tilde', 'dir_spelled_envvar', 'unknown_named_like_value_file', 'more_than_100_file_rows', 'journal_mode_not_wal', 'mass_loss', 'unknown_hidden_name')
+PROBES = ('damage_items', 'fanout_runs', 'rows_removed_by_fix', 'f14_probe', 'dir_spelled_dot', 'dir_spelled_double', 'dir_spelled_trailing', 'dir_spelled_dotdot', 'dir_spelled_relative', 'dir_spelled_symlink', 'dir_spelled_tilde', 'dir_spelled_envvar', 'unknown_named_like_value_file', 'link_to_outside_directory', 'more_than_100_file_rows', 'journal_mode_not_wal', 'mass_loss', 'unknown_hidden_name')
 TECHNIQUE = 'deterministic simulation with out-of-band damage injection: damage-kind subsets enumerated per sampled cache; report / convergence / undamaged-intact oracle with an independent auditor'
 LEVEL_TEXT = ('fault enumeration over damage-kind subsets: caches are sampled by seed, and for each cache every non-empty subset of the '
               'seven damage kinds is applied (thorough tier); the oracle knows exactly what it damaged and compares the two warning lists per '
@@ -81,7 +81,8 @@ def gen_case(seed, tier):
            # SQLite keeps other files next to cache.db under the other (documented) journal modes
            'journal': rng.choice(('wal', 'wal', 'wal', 'truncate', 'persist', 'delete')),
            # how the caller spells the directory: check() compares paths it builds from rows with paths it finds by walking
-           'dirform': rng.choice(('plain', 'plain', 'plain', 'dot', 'double', 'trailing', 'dotdot', 'relative', 'relative-dot', 'symlink', 'tilde', 'envvar'))}
+           'dirform': rng.choice(('plain', 'plain', 'plain', 'dot', 'double', 'trailing', 'dotdot', 'relative', 'relative-dot', 'symlink', 'tilde', 'envvar')),
+           'outside_link': rng.random() < 0.15}
     return {'seed': seed, 'cfg': cfg, 'items': items, 'damage': []}
 
 
@@ -342,6 +343,19 @@ def run_case(case):
                                    'detail': '%s reported %r which is no part of the damage %s' % (what, m[:100], report)})
                 return
 
+        outside = None
+        if cfg.get('outside_link'):
+            # a symbolic link below the cache directory that leads to a directory elsewhere (exports, another shard, a mount):
+            # what lies behind it is no part of the cache - nothing about it is reported and nothing of it is touched
+            outside = world.path('outside-data')
+            os.makedirs(os.path.join(outside, 'sub'), exist_ok=True)
+            for rel in ('a.csv', os.path.join('sub', 'b.val')):
+                with open(os.path.join(outside, rel), 'wb') as fh:
+                    fh.write(b'user data ' + rel.encode())
+            link = os.path.join(caches[-1].directory, 'exports')
+            if not os.path.lexists(link):
+                os.symlink(outside, link)
+            probes['link_to_outside_directory'] = 1
         before = snapshot()
         first = messages(False)
         after = snapshot()
@@ -389,6 +403,11 @@ def run_case(case):
                 problems, empties, info = audit(c.directory)
                 if problems:
                     violations.append({'rule': 'C17/audit-after-repair', 'sig': ','.join(sorted({p[0] for p in problems})), 'detail': str(problems[:3])})
+        if outside is not None and not violations:
+            left = sorted(os.path.relpath(os.path.join(r, f), outside) for r, _, fs in os.walk(outside) for f in fs)
+            if left != ['a.csv', os.path.join('sub', 'b.val')]:
+                violations.append({'rule': 'C17/files-outside-the-cache-touched', 'sig': 'symlinked-directory',
+                                   'detail': 'behind a symbolic link below the cache directory: %s left of a.csv, sub/b.val' % (left,)})
         top.close()
     finally:
         os.chdir(cwd)
